@@ -31,9 +31,14 @@ def label_kind_assume(st, L, lab):
     # 'any': the variant stays symbolic
 
 
-def decode_label(c, st, addr):
-    """[(condition, variant, [8 words])] of the label at addr by running the driver's label_view"""
+def decode_label(c, st, addr, when=None):
+    """[(condition, variant, [8 words])] of the label at addr by running the driver's label_view.  when: the
+    condition under which the slot is in use (an edge map merged at call level holds arbitrary bytes in a slot that
+    is unused on some of the merged paths): the decoding is made, and is valid, under it"""
     vm = c.vm
+    if when is not None:
+        st = st.fork()
+        st.assume(when)
     words = st.mem.alloc(64, 8, 'heap', name='scratch.words').base
     res = []
     for o in vm.run(st, '@label_view', [addr, words]):
@@ -170,7 +175,7 @@ def ob_slice(env, N, cap, edges, present, start, lab='alpha', which='slice_some'
         cl.append(('slice:vertices', z3.And(*[(Tn[i] != 0) == R[i] for i in range(cap)])))
         kept, sound = [], []
         for u in range(cap):
-            dec = [decode_label(c, s2, nw.a_ekey(u, k)) if vm.feasible(s2, z3.UGT(En[u], k)) else None for k in range(N)]
+            dec = [decode_label(c, s2, nw.a_ekey(u, k), z3.UGT(En[u], k)) if vm.feasible(s2, z3.UGT(En[u], k)) else None for k in range(N)]
             tg = [to_bv(nw.etgt(s2, u, k), 64) for k in range(N)]
             sound.append(z3.ULE(En[u], N))
             for j, t in enumerate(edges[u]):
